@@ -164,7 +164,21 @@ def run_shard(spec, tier, seed):
                     return None
                 compare(f'deduction+:{inc}', ans, chk, d)
             # ---- (c) each extra dollar withheld moves refund-minus-owed by one dollar
-            wh = [k for k in base_ans if re.match(r'^(w-2:\d+\.box_2|1099-(int|div|r):\d+\.box_4)$', k)]
+            wh = [k for k in base_ans if re.match(r'^(w-2:\d+\.box_2|1099-(int|div|r):\d+\.box_4|1040\.other_federal_withholding)$', k)]
+            if '1040.other_federal_withholding' in wh and tier == 'quick':
+                wh.remove('1040.other_federal_withholding')
+                o = solve_file(year, forms, dict(base_ans, **{'1040.other_federal_withholding': f'{fnum(base_ans["1040.other_federal_withholding"]) + 37:.2f}'}))
+                res.evaluations += 1
+                if o.exc is None and o.ret is True:
+                    t = typed(o)
+                    res.count('pairs_compared')
+                    res.count('pairs_withholding+')
+                    res.distinct.add(f'{year}|withholding+|1040.other_federal_withholding')
+                    d0 = base.get('1040.34', 0.0) - base.get('1040.37', 0.0)
+                    d1 = t.get('1040.34', 0.0) - t.get('1040.37', 0.0)
+                    if abs((d1 - d0) - 37) > 0.011:
+                        res.violation(f'C16|{year}|withholding+|1040.other_federal_withholding', f'{year} {fam} {p.key}: other federal withholding +37 moved refund-minus-owed by {d1 - d0:.2f}'
+                                      + (' (Form 8959 in the return)' if any(k.startswith('8959.') for k in base) else ''), dict(rp, transform='withholding+:other'))
             for k in (wh if tier != 'quick' else rng.sample(wh, min(3, len(wh)))):
                 inc = rng.choice([1, 50, 1000.25])
                 ans = dict(base_ans)
